@@ -638,9 +638,8 @@ KNOWN = {
     # implementation itself computed, between it and the POSIX transition), not merely the input class
     "D-C08-time-before-weekday": lambda v: v["case"].get("kind") == "posix" and v["case"].get("d_c08") is True
         and v["case"].get("zone") in ("tzstr", "tzrange"),
-    # characters outside the grammar adjacent to an abbreviation run are absorbed into the abbreviation
-    "D-C08b-unknown-char-in-abbr": lambda v: v["case"].get("kind") == "malformed" and v["case"].get("class") == "unknown-char"
-        and v["case"].get("outcome") == "accepted" and (v["case"].get("absorbed_into_abbr") is True or _is_unicode_digit_offset(v["case"])),
+    # (D-C08b-unknown-char-in-abbr was repaired: pending_fixes/D-C08b-unknown-char-in-abbr.diff; the malformed stream of the oracle —
+    # a stray character inserted at every position of generated strings, non-ASCII digits in offsets — reports it again if it returns)
 }
 
 def replay(ctx, payload):
